@@ -1373,6 +1373,57 @@ func ruleStepBuffers(r *Run) {
 		if !bad2 {
 			o2.OK("%d writer(s) of the step; each `return true` is dominated by one", len(writers)).At(r.pos(fn.Pos()))
 		}
+		// the same for the step's timestamp: a reported step says which evaluation time it is for
+		o3 := r.Ob("PV-RESET", shortFuncName(fn)+" step stamped", "a step that is reported as present carries its evaluation time: r.Timestamp is assigned (or r is filled by an inner iterator's Next(r)) on every path that returns true")
+		var stampers []ssa.Instruction
+		for _, gf := range funcGroup(fn) {
+			allInstrs(gf, func(in ssa.Instruction) {
+				switch x := in.(type) {
+				case *ssa.Store:
+					if f, base, ok := fieldNameOf(x.Addr); ok && f == "Timestamp" && originValueIn(base, funcGroup(fn)) == ssa.Value(fn.Params[1]) {
+						stampers = append(stampers, x)
+					}
+					if originValueIn(x.Addr, funcGroup(fn)) == ssa.Value(fn.Params[1]) {
+						stampers = append(stampers, x)
+					}
+				case *ssa.Call:
+					if (invokeIs(x, "Next") || (staticCallee(x) != nil && cname(staticCallee(x)) == "Next")) && len(x.Call.Args) > 0 {
+						if originValueIn(x.Call.Args[len(x.Call.Args)-1], funcGroup(fn)) == ssa.Value(fn.Params[1]) {
+							stampers = append(stampers, x)
+						}
+					}
+				}
+			})
+		}
+		bad3 := false
+		for _, ret := range returnsOf(fn) {
+			for _, lv := range phiLeavesWithPred(ret.Results[0], ret.Block()) {
+				if isConstBool(lv.V, false) {
+					continue
+				}
+				covered := false
+				for _, wr := range stampers {
+					lifted := liftInstr(wr, fn, funcGroup(fn), true)
+					if lifted == nil {
+						continue
+					}
+					if lv.Pred != nil {
+						if lifted.Block().Dominates(lv.Pred) {
+							covered = true
+						}
+					} else if instrDominates(lifted, ret) {
+						covered = true
+					}
+				}
+				if !covered {
+					bad3 = true
+					o3.Fail(r.pos(ret.Pos()), "Next can return true on a path that does not set r.Timestamp: the step is reported with the previous (or the zero) evaluation time")
+				}
+			}
+		}
+		if !bad3 {
+			o3.OK("%d writer(s) of the timestamp; each `return true` is dominated by one", len(stampers)).At(r.pos(fn.Pos()))
+		}
 	}
 	r.count("step_iterators", n)
 }
